@@ -396,6 +396,11 @@ def check(ctx):
     with ctx.shared({"C18.R3": ("C09.R6", "a removal that fails (allocation failure while shrinking) leaves the element in the table, so that 'no "
                                 "callback' is the right report")}):
         C18.r3(ctx, retsets)
+    from specs import C02
+    with ctx.shared({"C02.R1": ("C09.R7", "the record named in a callback is the record that is stored: exact match compares the whole prefix as given "
+                                "and the three element fields, so a removal cannot hit (and report) a differently spelled neighbour")}):
+        C02.r1(ctx)
+        C02.r1_whole_prefix(ctx)
     ctx.not_decided("callback ordering relative to other threads (add/remove notify after unlocking)")
     ctx.not_decided("that trie_insert/trie_remove restructure the trie correctly (C02 core)")
 
